@@ -33,6 +33,40 @@ def mods():
     return _AGENT_MODS
 
 
+class SendTimeout(BaseException):   # not an Exception: the code under test catches those
+    ''' the code under test did not return within its CPU-time budget (e.g. a fragment loop that does not advance) '''
+
+
+class watchdog(object):
+    ''' `with watchdog(seconds):` raises SendTimeout in the block once it has burnt that much CPU time.
+    Uses ITIMER_VIRTUAL / SIGVTALRM, so the check's own wall-clock SIGALRM is left alone; works in the main
+    process and in forked workers (main thread only). '''
+
+    def __init__(self, seconds):
+        self.seconds = seconds
+
+    def __enter__(self):
+        import signal
+
+        def on_alarm(signum, frame):
+            raise SendTimeout()
+        self._old = signal.signal(signal.SIGVTALRM, on_alarm)
+        signal.setitimer(signal.ITIMER_VIRTUAL, self.seconds)
+        return self
+
+    def __exit__(self, exc_type, exc, tb):
+        import signal
+        signal.setitimer(signal.ITIMER_VIRTUAL, 0)
+        signal.signal(signal.SIGVTALRM, self._old)
+        if exc_type is SendTimeout:
+            # free what a runaway loop piled up (idle sources referencing containers)
+            try:
+                mods()['GLib'].LOOP.reset()
+            except Exception:
+                pass
+        return False
+
+
 class _BusObj(object):
     def connect_to_signal(self, *a, **k):
         return None
